@@ -141,11 +141,7 @@ func Sub(fs FS, dir string) (FS, error) {
 	if fs, ok := fs.(SubFS); ok {
 		return fs.Sub(dir)
 	}
-	if fs, ok := fs.(MountFS); ok {
-		mountFS, subPath := fs.Mount(dir)
-		fs, err := Sub(mountFS, subPath)
-		return fs, stripErrPathPrefix(err, dir, subPath)
-	}
+	// NOTE: a MountFS is not forwarded to the FS mounted at 'dir'. More file systems can be mounted below 'dir', which must stay reachable.
 	return newSubFS(fs, dir)
 }
 
